@@ -113,6 +113,14 @@ def own_invoice_matrix():
                         {"op": "mint", "q": "mq2", "outs": [{"amt": 4}, {"amt": 1}]},
                         {"op": "balances"}]
                 hs.append({"fee": 0, "mpp": mpp, "policy": "min1", "probe": "all", "ops": ops})
+    # outputs that add up to just below 2^64 (31 x 2^59 and one of each smaller key: 2^64 - 1) for a one-sat input, on a fee-bearing
+    # keyset and on a free one; then the same with one unit more (the outputs' own sum overflows)
+    for fee in (100, 0):
+        outs = [{"big": "2^59"}] * 31 + [{"amt": 1 << k} for k in range(59)]
+        ops = [{"op": "mintquote", "amt": 13}, {"op": "settle", "q": "mq1"}, {"op": "mint", "q": "mq1", "outs": [{"amt": 8}, {"amt": 4}, {"amt": 1}]},
+               {"op": "swap", "ins": [{"p": "b3"}], "outs": outs}, {"op": "swap", "ins": [{"p": "b2"}, {"p": "b3"}], "outs": outs + [{"amt": 1}]},
+               {"op": "balances"}, {"op": "swap", "ins": [{"p": "b3"}, {"p": "b2"}], "outs": [{"amt": 4}] if fee else [{"amt": 4}, {"amt": 1}]}, {"op": "balances"}]
+        hs.append({"fee": fee, "mpp": False, "policy": "min1", "probe": "passive", "ops": ops})
     # NUT-15 partial payments of outside invoices: every msat class (whole sats, just above, just below); the melt is attempted
     # with 1, 2, 3, ... sats of inputs, so the first attempt the mint accepts burns exactly what it asks for and not more
     for kind, ms in [("mpp", x) for x in (1000, 1001, 1500, 2999, 4001, 8000)] + [("ext", x) for x in (1001, 1500, 2999, 3000)]:
@@ -151,9 +159,28 @@ def c05_check():
     return c05.check("C05")
 
 
+def repeated_output_matrix():
+    """Directed: requests that repeat one blinded message among their outputs - as identical copies and with another amount - in
+    a swap and in a mint, each followed by the corrected request with the same inputs / on the same quote."""
+    fund = [{"op": "mintquote", "amt": 13}, {"op": "settle", "q": "mq1"}, {"op": "mint", "q": "mq1", "outs": [{"amt": 8}, {"amt": 4}, {"amt": 1}]}]
+    look = [{"op": "checkstate", "ys": ["b1", "b2", "b3"]}, {"op": "balances"}]
+    hs = []
+    for http in (False, True):
+        for second in ({"amt": 4, "b": "b4"}, {"amt": 2, "b": "b4"}):
+            rest = [{"amt": 8 - 4 - second["amt"]}] if 8 - 4 - second["amt"] > 0 else []
+            ops = fund + [{"op": "swap", "ins": [{"p": "b1"}], "outs": [{"amt": 4}, second] + rest}] + look + \
+                [{"op": "swap", "ins": [{"p": "b1"}], "outs": [{"amt": 4}, {"amt": 4}]}] + look + \
+                [{"op": "mintquote", "amt": 8}, {"op": "settle", "q": "mq2"}, {"op": "pollmint", "q": "mq2"},
+                 {"op": "mint", "q": "mq2", "outs": [{"amt": 4}, dict(second, b="b8")] + rest}, {"op": "pollmint", "q": "mq2"},
+                 {"op": "mint", "q": "mq2", "outs": [{"amt": 4}, {"amt": 4}]}] + look
+            hs.append({"fee": 0, "mpp": False, "policy": "min1", "probe": "passive", "http": http, "ops": ops})
+    return hs
+
+
 @reg("C06")
 def c06():
-    return minthist.check("C06", level="exploration", malformed=5, probe="passive", num=50 if tier() == "quick" else 1200)
+    return minthist.check("C06", level="exploration", malformed=5, probe="passive", num=50 if tier() == "quick" else 1200,
+                          extra_histories=repeated_output_matrix())
 
 
 @reg("C07")
@@ -278,7 +305,9 @@ def limit_overshoot():
         ops += [{"op": "balances"}, {"op": "mintquote", "amt": 1}, {"op": "mintquote", "amt": 2}, {"op": "mintquote", "amt": 8},
                 {"op": "meltquote", "kind": "ext", "amt": 6}, {"op": "melt", "q": "lq1", "ins": [{"p": "b1"}], "pay": ["success"]},
                 {"op": "balances"}, {"op": "mintquote", "amt": 1}, {"op": "mintquote", "amt": 8}, {"op": "balances"}]
-        hs.append({"fee": 0, "mpp": False, "policy": "min1", "probe": "all", "limits": {"maxbal": maxbal, "maxmint": 0, "maxmelt": 0}, "ops": ops})
+        for http in (False, True):
+            hs.append({"fee": 0, "mpp": False, "policy": "min1", "probe": "all", "http": http,
+                       "limits": {"maxbal": maxbal, "maxmint": 0, "maxmelt": 0}, "ops": ops})
     return hs
 
 
